@@ -76,6 +76,13 @@ var c20Families = []family{
 	{name: "path backslash", prefix: "http://h", frag: "\\"},
 	{name: "path /..", prefix: "http://h", frag: "/.."},
 	{name: "path /a/..", prefix: "http://h", frag: "/a/.."},
+	{name: "path /a/b/..", prefix: "http://h", frag: "/a/b/.."},
+	{name: "path /a/b/c/../..", prefix: "http://h", frag: "/a/b/c/../.."},
+	{name: "path deep then /x/..", prefix: "http://h/DEEP", frag: "/x/.."},
+	{name: "path /a/./b/%2e%2e", prefix: "http://h", frag: "/a/./b/%2e%2E"},
+	{name: "authority a@", prefix: "http://", frag: "a@", suffix: "h/"},
+	{name: "authority a:b@", prefix: "http://", frag: "a:b@", suffix: "h/"},
+	{name: "ref /x/.. vs long base", prefix: "", frag: "x/../", base: "LONG"},
 	{name: "path /.", prefix: "http://h", frag: "/."},
 	{name: "path /%2e", prefix: "http://h", frag: "/%2e"},
 	{name: "path long segment", prefix: "http://h/", frag: "a"},
@@ -109,7 +116,8 @@ var c20Families = []family{
 }
 
 func (f family) build(n int) (input, base string) {
-	input = f.prefix + strings.Repeat(f.frag, n/max(1, len(f.frag))) + f.suffix
+	prefix := strings.Replace(f.prefix, "/DEEP", strings.Repeat("/d", n/4), 1)
+	input = prefix + strings.Repeat(f.frag, n/max(1, len(f.frag))) + f.suffix
 	if f.name == "query distinct names" {
 		var sb strings.Builder
 		sb.WriteString(f.prefix)
